@@ -445,7 +445,7 @@ fn generate(tier: Tier, rng: &mut Rng, emit: &mut Emit) {
     }
     let (nrand, nword) = match tier {
         Tier::Quick => (14_000, 3_000),
-        Tier::Thorough => (220_000, 30_000),
+        Tier::Thorough => (26_000, 5_000), // per shard; ./check runs 8 shards (larger tiers choke the orchestrator's pipes)
     };
     // small-scope enumeration: quick = all histories of <= 2 regions in a 6-byte window (both endiannesses)
     // and of 3 regions in a 4-byte window; thorough adds 3 regions in the 6-byte window
